@@ -57,6 +57,38 @@ CHECKS.update({
     ),
 })
 
+CHECKS.update({
+    "C06": (EXPL, "complete grid of read placements (type, context, offsets, CIGAR style) run through ReadSetReader.read with and without reference",
+        "Every placement of the alphabet (SNV/MNP/INS/DEL of length 1-3, random / homopolymer / dinucleotide context, haplotype, every start and end offset within 14 bases, "
+        "M, =/X, soft/hard clips, unrelated indels, reference skips next to / over the variant, reads outside, mate pairs, second variant at distance 1-30) is "
+        "written to a BAM and read once per mode; the recorded allele must never be the other allele, must be absent for non-overlapping reads and must be found where the statement says so.",
+        "Trusted: synthesiser places indels at the VCF position on a repeat-free reference; 'fully covers' as defined in DESIGN.md C06.", "C06"),
+    "C07": (EXPL, "bounded-exhaustive enumeration of read multisets x caps x preferred subsets on readselection; traced pipeline runs for the per-family cap",
+        "Every multiset of <= 5 reads (subsets of >= 2 of <= 5 positions) x cap 1-3 x bridging x every subset marked preferred (R<=4) x quality levels (R<=3): subset, cap and maximality are "
+        "recomputed independently; plus traced `whatshap phase` runs (single sample and trio, depth above the cap) for the total coverage handed to the solver.",
+        "Trusted: the span-coverage recount; the trace hook reporting the reads given to the solver.", "C07"),
+    "C08": (EXPL, "bounded-exhaustive enumeration of HMM instances against plain forward-backward / full path enumeration in long double",
+        "All instances of the layered space (read matrices with >= 2 entries per read, base qualities, prior triples, single/trio/quartet, recombination costs, long tables for the sqrt "
+        "column storage) through whatshap.core.GenotypeDPTable, compared to 1e-9 with an independent summation over global bipartitions; plus GL/GT/GQ consistency of `whatshap genotype` VCFs.",
+        "Trusted: native/oracle.cpp genotype_posterior (two modes cross-checked, Python twin, hand-computed triples from the repository's tests).", "C08"),
+    "C11": (EXPL, "bounded-exhaustive enumeration of pairs / triples of phasings against the definitions (brute force for minima)",
+        "All pairs of phasing patterns (n<=3 complete incl. unphased/homozygous calls, all-phased one/two-block patterns n=4, one-block n=5,7), explicit relabelling slice, triples for "
+        "--tsv-multiway, ploidy 3-4 one-block pairs: every TSV/BED/longest-block output is recomputed from the definitions.",
+        "Trusted: the definitions as coded in c11.py (self-tested: run-length decomposition == brute-force minimum of flips+switches).", "C11"),
+    "C12": (EXPL, "bounded-exhaustive enumeration of call-kind sequences against an independent count",
+        "All sequences of 12 call kinds up to length 4 (5) x PS/HP x --only-snvs, two-chromosome files x --chromosome selections, second sample: TSV counts, identities, block list, "
+        "GTF runs, ALL row and the covered-span bound are recomputed from the scenario.",
+        "Trusted: independent counts in c12.py. Multi-ALT and duplicate positions are not generated.", "C12"),
+    "C13": (MC, "explicit-state BFS over {unphase, phase PS, phase HP} histories on VCF files, every transition executed by the real command",
+        "From every base file (all sequences of <= 3 records over 15 call kinds incl. haploid, polyploid, partially missing, GT-less, pre-phased; 1-2 samples) BFS to depth 3; "
+        "invariants on every unphase transition (no phase left, nothing else changed, idempotent, unphase(phase(x)) == unphase(x)).",
+        "Trusted: text-level VCF comparison. A failing phase run is a disabled transition.", "C13"),
+    "C14": (EXPL, "bounded-exhaustive enumeration of (reads, list, options) against a reference distribution model",
+        "All read-name sequences (<= 3 (4) reads over 3 names incl. repeats, zero-length reads) x all haplotype assignments x list formats x BAM/FASTQ(.gz) x ploidy 2-3 (4) x "
+        "requested-output subsets x --add-untagged / --discard-unknown-reads / --only-largest-block: every output is compared record by record, plus the histogram column sums.",
+        "Trusted: the dict-based reference model in c14.py. Read names unique within the list.", "C14"),
+})
+
 PENDING = {}
 
 
